@@ -73,6 +73,8 @@ def run(rep, tier, seed, replay=None):
     rep.cov['oracle_distribution'] = o['stat']
     rep.cov['oracle_known_class_mismatches'] = len(o['known'])
     rep.cov['evaluations'] = rep.cov.get('evaluations', 0) + o['done'][0]
+    rc1, out1 = vh(binp, ['c06', 'one', oseed, start])
+    rep.cov['samples'].append({'oracle_case': 'vh c06 one %d %d' % (oseed, start), 'tree_and_verdict': out1[:1800]})
     for f in o['fail'][:4]:
         rep.add_violation('an absolutely positioned node influences a node outside its subtree: %s' % f['line'][:700],
                           {'seed': oseed, 'idx': f['idx'], 'cmd': 'vh c06 one %d %d' % (oseed, f['idx'])})
